@@ -575,11 +575,8 @@ func reifyMergeValue(
 		if err := runValidators(old.Interface(), opts.validators); err != nil {
 			return reflect.Value{}, raiseValidation(val.Context(), val.meta(), "", err)
 		}
-		if old.Kind() != reflect.Struct {
-			// (a struct is validated by the caller once all its fields are set)
-			if err := tryValidate(old); err != nil {
-				return reflect.Value{}, raiseValidation(val.Context(), val.meta(), "", err)
-			}
+		if err := tryValidate(old); err != nil {
+			return reflect.Value{}, raiseValidation(val.Context(), val.meta(), "", err)
 		}
 		return old, nil
 	}
